@@ -51,6 +51,11 @@ def list_casts():
     for k in LKEYS:
         for v in LISTS:
             out.append(({"A": {k: v}, "condition": "A"}, _docs()))
+    # negated, so that false and missing are told apart (D27 / D33: str(k) against null)
+    for k in ("str(f)", "f", "int(f)", "flt(f)"):
+        for v in ([None, None], [None, "foo"] if k in ("str(f)", "f") else [None, 5], [None]):
+            out.append(({"A": {k: v}, "condition": "not A"}, _docs()))
+            out.append(({"A": [{k: v[0]}, {k: v[-1]}, {"g": "x"}], "condition": "not A"}, _docs() + [{"g": "x"}]))
     return out
 
 
